@@ -3,6 +3,7 @@ package main
 import (
 	"fmt"
 	"strconv"
+	"sync"
 	"sync/atomic"
 
 	"github.com/fufuok/cache/internal/xsync"
@@ -37,7 +38,57 @@ type Layout struct {
 }
 
 func (l Layout) hashMap(k int) uint64   { return (l.Tag(k)&0xfffff)<<44 | (l.Bucket(k) & 0xffffffff) }
-func (l Layout) hashMapOf(k int) uint64 { return (l.Bucket(k)&0xffffffff)<<7 | (l.Tag(k) & 0x7f) }
+func (l Layout) hashMapOf(k int) uint64 { return composeMapOf(l.Bucket(k)&0xffffffff, l.Tag(k)&0x7f) }
+
+// composeMapOf builds a hash whose bucket-selecting part (h1, low 32 bits) and in-bucket tag (h2) are the
+// given ones, whichever bits of the hash the code under test takes them from (measured once through the
+// code's own h1/h2: each must be a selection of hash bits).
+var mapOfBits struct {
+	once sync.Once
+	h1   [32]uint64 // hash bit feeding bit j of h1
+	h2   [7]uint64  // hash bit feeding bit j of h2
+}
+
+func composeMapOf(bucket, tag uint64) uint64 {
+	mapOfBits.once.Do(func() {
+		for i := 0; i < 64; i++ {
+			x := uint64(1) << uint(i)
+			a, b := xsync.VerifH1(x), uint64(xsync.VerifH2(x))
+			for j := 0; j < 32; j++ {
+				if a == 1<<uint(j) && mapOfBits.h1[j] == 0 {
+					mapOfBits.h1[j] = x
+				}
+			}
+			for j := 0; j < 7; j++ {
+				if b == 1<<uint(j) && mapOfBits.h2[j] == 0 {
+					mapOfBits.h2[j] = x
+				}
+			}
+		}
+		for j := range mapOfBits.h1 {
+			if mapOfBits.h1[j] == 0 {
+				panic("the bucket-selecting bits of a MapOf hash cannot be controlled (h1 is not a selection of hash bits)")
+			}
+		}
+		for j := range mapOfBits.h2 {
+			if mapOfBits.h2[j] == 0 {
+				panic("the tag bits of a MapOf hash cannot be controlled (h2 is not a selection of hash bits)")
+			}
+		}
+	})
+	var h uint64
+	for j := 0; bucket != 0; j, bucket = j+1, bucket>>1 {
+		if bucket&1 != 0 {
+			h |= mapOfBits.h1[j]
+		}
+	}
+	for j := 0; tag != 0; j, tag = j+1, tag>>1 {
+		if tag&1 != 0 {
+			h |= mapOfBits.h2[j]
+		}
+	}
+	return h
+}
 
 // Every table generation of a container gets its own seed (1, 2, 3, ...), and the in-bucket tag of a key
 // depends on it (the bucket does not: the designed bucket relations hold in every generation; the first
@@ -54,7 +105,7 @@ func (l Layout) hashMapSeeded(k int, seed uint64) uint64 {
 }
 
 func (l Layout) hashMapOfSeeded(k int, seed uint64) uint64 {
-	return l.hashMapOf(k) ^ ((seed-1)*37)&0x7f
+	return composeMapOf(l.Bucket(k)&0xffffffff, (l.Tag(k)^((seed-1)*37))&0x7f)
 }
 
 // emptyKeyZero makes key index 0 the empty string (used by the jobs that run the real hash functions).
